@@ -298,6 +298,7 @@ func (c *tunnelChannel) newStream(ctx context.Context, clientStreams, serverStre
 	if err != nil {
 		return nil, err
 	}
+	verifYield("client.newStream.afterAlloc")
 	err = c.stream.Send(&tunnelpb.ClientToServer{
 		StreamId: str.streamID,
 		Frame: &tunnelpb.ClientToServer_NewStream{
@@ -553,6 +554,7 @@ func (c *tunnelChannel) close(err error) bool {
 		c.tearDown(c)
 	}
 
+	verifYield("client.close.afterTearDown")
 	c.mu.Lock()
 	defer c.mu.Unlock()
 
@@ -833,6 +835,7 @@ func (st *tunnelClientStream) cancelStream(err error) {
 		// stream already closed
 		return
 	}
+	verifYield("client.cancel.afterFinish")
 	st.receiver.cancel()
 	// Let server know, too.
 	go func() {
@@ -861,6 +864,7 @@ func (st *tunnelClientStream) finishStream(err error, trailers metadata.MD) bool
 	defer st.cancel()
 	st.ch.removeStream(st.streamID)
 	st.receiver.close()
+	verifYield("client.finish.beforeTrailers")
 
 	st.metaMu.Lock()
 	defer st.metaMu.Unlock()
